@@ -21,6 +21,9 @@ EXPLANATION = (
     'every ordinal it returns comes from an exact-equality search of the axis (or is len(axis) under the include-stop '
     'flag and an exact-equality test), never from a tolerance / nearest-neighbour construct, and the not-found path '
     'ends in IndexError.')
+EXPLANATION += (
+    ' ADDED: For anticorrelated / correlated diagonal ids the bound must be exactly n_il + n_xl - 1, resp. -n_xl < id < n_il (polynomial comparison). C14.2: a public method may pass access_padding=True only around values derived from its own checked parameters; a bare padded extent as an argument is a violation. C14.5: a failed bounds guard of the read API raises IndexError.'
+)
 ASSUMPTIONS = [
     'numpy subscripts of exact-length arrays raise IndexError or apply Python negative indexing',
     'parameter and attribute names denote what they say (n_ilines is the inline count); axis tags are seeded from names',
